@@ -54,6 +54,7 @@ func (m *Machine) timeIsZero(t value) bool {
 
 type vtimer struct {
 	id      int
+	deadline value // virtual-clock instant (int64 or symbolic) at which the timer is due
 	dur     int64
 	f       value  // AfterFunc callback (nil for After)
 	ch      *vchan // After channel
@@ -97,6 +98,46 @@ func (m *Machine) fireTimerNoYield(t *vtimer) {
 	}
 }
 
+// clock is the virtual clock driven by vrtAdvance (nanoseconds since the start
+// of the path).
+func (m *Machine) clock() value {
+	if m.vclock == nil {
+		m.vclock = int64(0)
+	}
+	return m.vclock
+}
+
+// advance moves the virtual clock forward by d and fires, one at a time (each
+// followed by a yield so that AfterFunc callbacks run), every pending timer
+// whose deadline is not after the new instant. Whether a symbolic deadline is
+// due is a branch decision.
+func (m *Machine) advance(d value) value {
+	m.vclock = m.binop(token.ADD, nil, m.clock(), d)
+	n := 0
+	for {
+		var pend []*vtimer
+		for _, t := range m.timers {
+			if !t.fired && !t.stopped && t.deadline != nil {
+				pend = append(pend, t)
+			}
+		}
+		sort.SliceStable(pend, func(i, j int) bool { return pend[i].dur < pend[j].dur })
+		fired := false
+		for _, t := range pend {
+			due := m.binop(token.LEQ, nil, t.deadline, m.vclock)
+			if m.decide(due, "timer-due") {
+				m.fireTimer(t)
+				n++
+				fired = true
+				break
+			}
+		}
+		if !fired {
+			return n
+		}
+	}
+}
+
 func (m *Machine) nextTimer() *vtimer {
 	var best *vtimer
 	for _, t := range m.timers {
@@ -109,7 +150,7 @@ func (m *Machine) nextTimer() *vtimer {
 
 // nowValue returns a fresh symbolic instant, non-decreasing along the path.
 func (m *Machine) nowValue() value {
-	v := m.newInput("int64", types.Int64).(symv)
+	v := m.newInput("envnow", types.Int64).(symv)
 	lo := m.ctx.BV(0, 64)
 	if m.nowTerm != nil {
 		lo = m.nowTerm
@@ -194,6 +235,7 @@ func registerTime(p *Program) {
 			dur = asInt64(d)
 		}
 		t := &vtimer{id: len(m.timers), dur: dur, f: f, ch: ch}
+		t.deadline = m.binop(token.ADD, nil, m.clock(), d)
 		m.timers = append(m.timers, t)
 		// *time.Timer{C <-chan Time; initTimer bool}
 		var cv value = (*vchan)(nil)
